@@ -881,7 +881,7 @@ func (p *parser) parseContinueStatement() ast.Statement {
 		if !p.scope.inIteration {
 			goto illegal
 		}
-		p.labelledContinues = append(p.labelledContinues, labelledContinue{label: identifier.Name, idx: idx})
+		p.labelledContinues = append(p.labelledContinues, labelledContinue{label: identifier.Name, idx: idx, scope: p.scope})
 		p.semicolon()
 		return &ast.BranchStatement{
 			Idx:   idx,
@@ -916,7 +916,7 @@ func (p *parser) checkLabelledContinues(label string, statement ast.Statement) {
 	}
 	kept := p.labelledContinues[:0]
 	for _, cont := range p.labelledContinues {
-		if cont.label != label {
+		if cont.label != label || cont.scope != p.scope {
 			kept = append(kept, cont)
 			continue
 		}
